@@ -147,6 +147,7 @@ impl Prop for C02 {
         prop_oneof![
             4 => (arb_d(), arb_d(), 0u8..8).prop_map(|(x, y, mode)| Case { x, y: Rhs::Dec(y), mode }),
             2 => (arb_d(), arb_int(), any::<bool>(), 0u8..8).prop_map(|(x, i, l, mode)| Case { x, y: if l { Rhs::IntL(i) } else { Rhs::IntR(i) }, mode }),
+            2 => (arb_related_pair(), 0u8..8).prop_map(|((x, y), mode)| Case { x, y: Rhs::Dec(y), mode }),
             3 => tie_pair(),
             3 => wide_pair(),
             2 => exact_wide(),
